@@ -60,6 +60,7 @@ type dischargeOpts struct {
 	allAgree bool // thorough: every solver that answers must agree
 	scratch  string
 	parallel int
+	retry    bool // second attempt: every solver gets the full budget
 }
 
 // discharge decides one obligation.
@@ -110,7 +111,7 @@ func discharge(o *Obligation, idx int, opt dischargeOpts) {
 	}
 	for i, s := range solvers {
 		t := opt.timeoutS
-		if i == 0 && !opt.allAgree && t > 3 {
+		if i == 0 && !opt.allAgree && !opt.retry && t > 3 {
 			t = 3 // first attempt short; the others get the full budget
 		}
 		st, out := try(s, t)
@@ -155,6 +156,37 @@ func dischargeAll(obls []*Obligation, opt dischargeOpts) {
 			defer func() { <-sem }()
 			discharge(o, i, opt)
 		}(i, o)
+	}
+	wg.Wait()
+	// second chance for obligations nobody decided (a loaded machine turns easy queries into timeouts): a few at
+	// a time, with a long budget; only what is still undecided afterwards is reported
+	var again []int
+	for i, o := range obls {
+		if !o.Trivial && !o.Cover && o.Status != "unsat" && o.Status != "sat" && o.Status != "disagree" {
+			again = append(again, i)
+		}
+	}
+	if len(again) == 0 {
+		return
+	}
+	opt2 := opt
+	opt2.retry = true
+	if opt2.timeoutS < 30 {
+		opt2.timeoutS = 30
+	}
+	sem2 := make(chan struct{}, 4)
+	for _, i := range again {
+		wg.Add(1)
+		sem2 <- struct{}{}
+		go func(i int, o *Obligation) {
+			defer wg.Done()
+			defer func() { <-sem2 }()
+			first := o.RawOut
+			t0 := o.TimeMs
+			discharge(o, i, opt2)
+			o.TimeMs += t0
+			o.RawOut = "first attempt: " + strings.SplitN(first, "\n", 2)[0] + "\nretry: " + o.RawOut
+		}(i, obls[i])
 	}
 	wg.Wait()
 }
